@@ -24,7 +24,7 @@ type dlSend struct {
 }
 
 func (s dlSend) String() string {
-	return fmt.Sprintf("#%d %s->%s %T from=%s", s.id, [...]string{"nil", "ghost", "stopped", "foreign", "live"}[s.kind], pidStr(s.target), s.payload, pidStr(s.sender))
+	return fmt.Sprintf("#%d %s->%s %T from=%s", s.id, [...]string{"nil", "ghost", "stopped", "foreign", "live", "stopped-subscriber"}[s.kind], pidStr(s.target), s.payload, pidStr(s.sender))
 }
 
 type plainMsg struct {
@@ -87,7 +87,7 @@ func runDead(rc *core.RunCtx) {
 		n := g.Range(1, maxOps)
 		for i := 0; i < n; i++ {
 			nid++
-			s := dlSend{id: nid, kind: g.Pick(1, 4, 4, 3, 2), sender: senders[g.IntN(len(senders))]}
+			s := dlSend{id: nid, kind: g.Pick(1, 4, 4, 3, 2, 3), sender: senders[g.IntN(len(senders))]}
 			switch s.kind {
 			case 0:
 				s.target = nil
@@ -99,6 +99,15 @@ func runDead(rc *core.RunCtx) {
 				s.target = actor.NewPID(fmt.Sprintf("10.0.0.%d:4000", 1+g.IntN(2)), "act/far")
 			case 4:
 				s.target = actor.NewPID("local", "act/live")
+			case 5:
+				// a subscriber that has stopped without unsubscribing
+				if ndead == 0 {
+					s.kind = 1
+					s.target = actor.NewPID("local", "ghost/2")
+				} else {
+					d := deadMons[g.IntN(ndead)]
+					s.target = actor.NewPID(d.PID.Address, d.PID.ID)
+				}
 			}
 			switch g.Pick(3, 2, 2, 1) {
 			case 0:
@@ -171,7 +180,7 @@ func runDead(rc *core.RunCtx) {
 					}
 				}
 			}
-			feat := [...]string{"nil", "ghost", "stopped", "foreign", "live"}[s.kind]
+			feat := [...]string{"nil", "ghost", "stopped", "foreign", "live", "stopped-subscriber"}[s.kind]
 			if ndead > 0 {
 				feat += "+stopped-subscriber"
 			}
@@ -180,7 +189,7 @@ func runDead(rc *core.RunCtx) {
 				if ndl != 0 || nrm != 0 {
 					rc.Violate("unexpected-event/"+feat, "%s: monitor %s saw %d dead letters, %d remote-missing events", s, m.Name, ndl, nrm)
 				}
-			case 1, 2:
+			case 1, 2, 5:
 				if ndl != 1 || nrm != 0 {
 					rc.Violate("dead-letter-count/"+feat, "%s: monitor %s saw %d DeadLetterEvents (want exactly 1) and %d remote-missing events", s, m.Name, ndl, nrm)
 				}
@@ -188,6 +197,24 @@ func runDead(rc *core.RunCtx) {
 				if nrm != 1 || ndl != 0 {
 					rc.Violate("remote-missing-count/"+feat, "%s: monitor %s saw %d EngineRemoteMissingEvents (want exactly 1) and %d dead letters", s, m.Name, nrm, ndl)
 				}
+			}
+		}
+	}
+	// an event forwarded to a stopped subscriber is itself an undeliverable
+	// message: its dead letter must reach the live subscribers (at least the
+	// first one per stopped subscriber; then the stream forgets it)
+	for _, d := range deadMons {
+		for _, m := range live {
+			n := 0
+			for _, e := range m.Events {
+				if v, ok := e.Ev.(actor.DeadLetterEvent); ok && v.Target != nil && v.Target.ID == d.PID.ID {
+					if strings.HasPrefix(fmt.Sprintf("%T", v.Message), "actor.") {
+						n++ // the undeliverable message is one of the engine's own events
+					}
+				}
+			}
+			if n == 0 {
+				rc.Violate("dead-letter-count/event-forwarded-to-stopped-subscriber", "monitor %s never saw a DeadLetterEvent for the events forwarded to the stopped subscriber %s", m.Name, d.Name)
 			}
 		}
 	}
